@@ -5,7 +5,11 @@
 (* produces the digest and leaves the transaction alone (frame).              *)
 EXTENDS Sighash, TLC
 
-CONSTANTS MaxIn, MaxOut
+CONSTANTS MaxIn, MaxOut, HtSet
+\* hash types explored: all 256, or (quick tier) every value of the low five bits plus the
+\* 0x40 / 0x80 / 0xc0 variants of 0..4 and 31 (the replay always runs all 256 on pycoin)
+HtAll == 0..255
+HtQuick == (0..31) \cup {h + k : h \in {0, 1, 2, 3, 4, 31}, k \in {64, 128, 192}}
 
 FF4 == Rep(255, 4)
 InTab == << TxIn(Sym(1), LE32(0), <<1, 2>>, FF4),
@@ -60,7 +64,7 @@ Compute == /\ phase = "asked"
            /\ digest' = D(Ctx, coin, sv, i, ht)
            /\ phase' = "done"
            /\ UNCHANGED <<coin, sv, tx, i, ht>>
-Next == Compute \/ \E h \in 0..255 : Request(h)
+Next == Compute \/ \E h \in HtSet : Request(h)
 Spec == Init /\ [][Next]_vars
 Asked == phase = "asked"
 
